@@ -196,3 +196,7 @@ def _check_layout(ctx, funpack, inst, ln, rn, l0, l1, r0, r1, s, asg):
     ctx.check("decode-layout", inst, ok, funpack, inst,
               "%s decodes to %s; AOSP unpackLanguageOrRegion gives %s" % (inst, show(s)[:200], show_chars([norm_code(c, asg) for c in exp])[:200]),
               detail="decoded text = AOSP layout")
+
+
+MUTATION_TARGETS = [(AXML, "ARSCResTableConfig._unpack_language_or_region"), (AXML, "ARSCResTableConfig._pack_language_or_region"),
+                    (AXML, "ARSCResTableConfig.set_language_and_region"), (AXML, "ARSCResTableConfig.get_language_and_region")]
